@@ -35,7 +35,8 @@ MNext ==
                                     s \in {IF Unacked # {} /\ Pick(1..4) > 1 THEN Pick(Unacked) ELSE Pick(1..MaxSeq)},
                                     rel \in {IF Payable # {} /\ Pick(1..4) > 1 THEN Pick(Payable) ELSE Pick(Rels)} :
               AckEff(aa, s, rel) /\ last' = [act |-> "Ack", res |-> Res(AckOK(aa, s, rel)), signer |-> aa, seq |-> s, rel |-> rel, proof |-> pf]
-       \/ w \in 16..20 /\ \E p \in {Pick(Paths)}, m \in {Pick(Methods)} : Priv(p, m)
+       \/ w \in 16..19 /\ \E p \in {Pick(Paths)}, m \in {Pick(Methods)} : Priv(p, m)
+       \/ w = 20 /\ IF Pick(1..2) = 1 THEN Regenesis ELSE \E p \in {Pick(Paths)}, m \in {Pick(Methods)} : Priv(p, m)
   /\ hist' = Append(hist, last')
 MSpec == MInit /\ [][MNext]_<<vars, hist>>
 Emit == Len(hist) = Depth => PrintT(<<"MBT", ToJson(hist)>>)
